@@ -176,7 +176,8 @@ def check_property(prop, tier='quick', seed=0):
     t0 = time.time()
     rep = Report(prop, tier, seed)
     opts = {'query_timeout_ms': 10000 if tier == 'quick' else 60000,
-            'branch_timeout_ms': 5000 if tier == 'quick' else 20000}
+            'branch_timeout_ms': 5000 if tier == 'quick' else 20000,
+            'proof_wall_limit_s': 420 if tier == 'quick' else 3600}
     known = load_known()
     kf = [k for k in known.get('findings', []) if k['property'] == prop]
 
